@@ -284,12 +284,14 @@ def add_index_world(r: random.Random, w: World, n_comp: int, equal_shares: bool 
                     ticks_one: bool = True) -> str:
     """components M0..M{n-1} with outstanding shares and an index market placed anywhere in the list."""
     sh = r.choice([100, 250, 1000])
+    base_units = r.random() < 0.06  # supplies declared in base units: each below 2^63, their sum above
     for i in range(n_comp):
         tick = 1.0 if ticks_one or r.random() < 0.6 else r.choice([0.5, 0.1, 0.01])
         p0 = float(r.choice([100, 300, 50, 420]))
         vol = r.choice([0.001, 0.01, 0.03]) if r.random() < volatile else 0.0
         w.add_market(f"M{i}", tick, p0, vol=vol, drift=r.choice([0.0, 0.001, -0.002]) if r.random() < 0.4 else 0.0,
-                     shares=sh if equal_shares else r.choice([100, 250, 1000, 7, 33]),
+                     shares=(sh if equal_shares else r.choice([100, 250, 1000, 7, 33])) if not base_units or equal_shares
+                     else r.choice([2500000000000000000, 4100000000000000000, 3300000000000000000, 9000000000000000000]),
                      price_key=r.choice(["marketPrice", "fundamentalPrice"]))
     comps = [f"M{i}" for i in range(n_comp)]
     if r.random() < 0.3:
@@ -609,7 +611,7 @@ def gen_rules(r: random.Random, profile: str) -> Dict[str, Any]:
         n = r.randint(2, 4)
         for i in range(n):
             tick = r.choice([1.0, 0.5, 0.3, 10.0, 0.1])
-            p0 = float(round(r.choice([100, 300, 1000]) / tick) * tick)
+            p0 = float(round(r.choice([100, 300, 1000, 333, 127, 301.5]) / tick) * tick)  # band edges need not be whole numbers
             w.add_market(f"M{i}", tick, p0)
         names = [m["name"] for m in w.markets]
         rate = r.choice([0.01, 0.05, 0.1, 0.3]) if r.random() < 0.93 else r.choice([0.0, 1.0, 1.5])
@@ -653,7 +655,8 @@ def gen_rules(r: random.Random, profile: str) -> Dict[str, Any]:
                     else:
                         ops.append({"k": "limit", "m": mi, "side": r.choice("bs"),
                                     "px": {"mode": "relp0", "f": r.choice(facs)}, "vol": r.randint(1, 4),
-                                    **({"ttl": r.randint(1, 5)} if r.random() < 0.4 else {})})
+                                    **({"ttl": r.randint(1, 5)} if r.random() < 0.4 else {}),
+                                    **({"typ": r.choice(["ip", "np"])} if r.random() < 0.08 else {})})
                 turns.append(ops)
             w.scripts[a["name"]] = turns
         add_user_rules(r, w, p_bystander=0.25)
